@@ -95,6 +95,7 @@ def panic_module(ctx, rule, module_files, entries_pred, label):
 def c14(ctx):
     from .rules import codepage
     codepage.run(ctx)
+    codepage.flow_rules(ctx)
     n = panic_module(ctx, "PANIC(codepage)", ("src/internal/codepage.rs",),
                      lambda f: f.file == "src/internal/codepage.rs" and f.exported, "CodePage::{encode,decode,id,from_id,name}")
     ctx.floor("PANIC(codepage)", "potential panic sites in codepage.rs", n, 5)
